@@ -280,7 +280,9 @@ func (propC15) Run(scI interface{}) *Outcome {
 		case "fs":
 			w.FSWrite(l.dir+"/"+name+".twig", []byte(src), w.NowNS())
 		case "compiled":
-			data, _ := twig.SerializeCompiledTemplate(&twig.CompiledTemplate{Name: name, Source: src, LastModified: f.mtime, CompileTime: f.mtime})
+			// the timestamps stored INSIDE the compiled file deliberately differ from the file's mtime: the
+			// loader's modification time is a property of the file, not of its content
+			data, _ := twig.SerializeCompiledTemplate(&twig.CompiledTemplate{Name: name, Source: src, LastModified: 1, CompileTime: 2})
 			w.FSWrite(l.dir+"/"+name+".twig.compiled", data, w.NowNS())
 		}
 		l.files[name] = f
